@@ -203,6 +203,55 @@ def run(ctx):
     for line, mo, g in zip(lines, ctx.driver.ask(lines), impl):
         if mo != g:
             ctx.disagree('versions', line[:200], mo[:300], g[:300])
+    verref_tie(ctx)
+
+
+def verref_tie(ctx):
+    """Tie of Model/C08Live.lean (driver `verref.run real ...`) to the live code: histories of run-time edits of
+    the version records / re-initialisations / context-predicate calls, each performed on module state no other
+    history has touched (harness/xcheck/c08verref_xcheck.py: one forked child per history importing the library
+    anew, the first few also in a genuinely new interpreter; a subprocess because the histories rebuild the
+    library's tables, and so that a hang ends in a timeout).  Compared: the answers of the predicate calls, the
+    seven tables of `minecraft`, utility's index map, the four tables as `connection` shows them and the `is`
+    tests between the modules' objects -- against the model imported with the history's records AND against the
+    model imported with the shipped records followed by `R=<recs> I1` (two requests per history).  The fixed
+    histories of gen/c08live.py plus random ones; all randomness from the seed drawn here from ctx.rng."""
+    import os
+    import subprocess
+    import sys
+    import lib
+    script = os.path.join(os.path.dirname(os.path.dirname(os.path.abspath(__file__))), 'xcheck', 'c08verref_xcheck.py')
+    n = ctx.scale(16, 300)
+    fresh = ctx.scale(1, 6)
+    budget = 10
+    seed = ctx.rng.getrandbits(48)
+    env = dict(os.environ, PYCRAFT_REPO=lib.REPO, PYTHONDONTWRITEBYTECODE='1')
+    limit = 90 + 3 * budget + n
+    try:
+        p = subprocess.run([sys.executable, script, str(n), str(seed), str(fresh), str(budget)], capture_output=True,
+                           text=True, env=env, timeout=limit)
+    except subprocess.TimeoutExpired:
+        ctx.disagree('verref.run: the real-code observation script did not finish in %d s' % limit,
+                     [script, n, seed], None, 'timeout')
+        return
+    pairs = [l.split('\t') for l in p.stdout.splitlines()]
+    if p.returncode != 0 or len(pairs) < 2 * n or any(len(x) != 2 for x in pairs):
+        ctx.disagree('verref.run: the real-code observation script could not run against this tree',
+                     [script, n, seed], None, (p.stderr or p.stdout)[-1500:])
+        return
+    for k, ((req, exp), mo) in enumerate(zip(pairs, ctx.driver.ask([q for q, _ in pairs]))):
+        form = 'from-import' if k % 2 else 'records'
+        ops = req.split(' ')[3:]
+        ctx.case(('verref.run', req), sample={'op': 'verref.run', 'ops': ' '.join(ops)[:120], 'impl': exp[:120]} if k % 2 == 0 else None)
+        ctx.count('verref.' + form)
+        if k % 2 == 0:
+            ctx.count('verref.ops', len(ops))
+            ctx.count('verref.calls', sum(o.startswith('C=') for o in ops))
+        if mo != exp:
+            ctx.disagree('verref.run real (%s form) vs the live modules on untouched module state' % form,
+                         req if len(req) < 1500 else req[:200] + ' ... ' + req[-1200:], mo[:1500], exp[:1500])
+    ctx.extra['c08verref_pairs'] = ctx.extra.get('c08verref_pairs', 0) + len(pairs)
+    ctx.extra['c08verref_histories'] = ctx.extra.get('c08verref_histories', 0) + len(pairs) // 2
 
 
 def replay(ctx, rp):
